@@ -2,6 +2,7 @@ SPECIFICATION Spec
 CONSTANTS Family = "findlist"
           MaxEdits = 2
           UnivKinds = {"complete", "leafonly", "noisy"}
+          GtFirst = FALSE
           WithGt = TRUE
 INVARIANT UnfoldIsDenote
 INVARIANT ErrorOnlyWhenDenoted
